@@ -14,7 +14,7 @@ RULE = (
     "quotes, stray operators and brackets, gigantic / out-of-range numbers, NaN / Infinity, non-ASCII, control characters, "
     "Python keywords, string prefixes, broken escapes, private attribute names, regex / glob / strptime metacharacters, "
     "duplicated date tokens, empty); the CID is loaded with Cid.read and, when it loads, the base data is validated under "
-    "it; plus the cell's own value in other letter cases and decorated in 24 ways (no-break and other non-ASCII white space, control characters, zero-width characters, brackets, stray punctuation, doubled). Data side: every cell of the base data is replaced by every pool value, read with cutplace.rows (raise mode) and written through cutplace.Writer (delimited and fixed) "
+    "it; plus the cell's own value in other letter cases and decorated in 27 ways (no-break and other non-ASCII white space, control characters, zero-width characters, brackets, stray punctuation, doubled). Data side: every cell of the base data is replaced by every pool value, read with cutplace.rows (raise mode) and written through cutplace.Writer (delimited and fixed) "
     "and validate. Thorough: all pairs of cells within a row over the 25 most productive values, and containers "
     "(delimited, fixed, ODS, XLSX) truncated and with one byte replaced at every offset. A tenth of the cases also go "
     "through applications.main (must not answer 4). Oracle: only InterfaceError / DataError may escape; the innermost "
@@ -32,14 +32,14 @@ POOL = [
     "NaN", "nan", "Infinity", "-Infinity", "inf", "sNaN", "1e5", "١٢٣", "１２", "äöü", "€", " ", "\x00", "\t", "\n", "\r\n", "a\nb", "\x1b[0m", "﻿", "\ud800",
     "class", "None", "lambda", "import os", "__import__('os')", "is valid", "is_valid", "format", "_format", "VALID_LINE_DELIMITER_TEXTS", "__dict__", "__class__",
     "-1e5000", "-1e5000...", "...-1e5000", "1e5000", "...5", ":5", "5...", "1e999999999999999999", "1e-999999999999999999", "0...1e999999999999999999", "a{99999999999}", "(a{99999}){99999}", "0x" + "f" * 5000, "0x" + "f" * 4000, "1...0x" + "f" * 4000, "9" * 5000, "hex", "rot13", "base64", "zlib_codec", "unicode_escape", "idna", "punycode",
-    "DD.DD", "YYYYYY", "hh:hh", "%%DD", "DD%", "MMMM", "x" * 300, "a,b;c|d", "tab", "TAB", "cr lf",
+    "'50%', red", "\"100%d\", 'x'", "'%s', '%(x)s', red", "DD.DD", "YYYYYY", "hh:hh", "%%DD", "DD%", "MMMM", "x" * 300, "a,b;c|d", "tab", "TAB", "cr lf",
     "999999999999999", "1...999999999999999", "999999999999999...", "(?a)(?u)x", "(" * 500 + "a" + ")" * 500, "[" * 300, "kind < exit(4)", "kind < quit()", "id\\\n< 3", "\\\nid < 3",
     " /\n\x00", "/\n\x00", "id /\n\x00", "1 if", "kind < (yield)", "kind < (lambda: 1)()", "kind < [c for c in 'ab']", "kind := 3", "kind < 1; 2",
 ]
 # hostile variations of the cell's own (well-formed) value: white space the tokenizer does not know, control characters,
 # brackets and stray punctuation glued to it
 DECORATIONS = ["\xa0{}", "{}\xa0", "\u2003{}", "{}\u2003", "{}\u3000", "\u1680{}", "{}\t", "{}\n", "\n{}", "\ufeff{}", "{}\ufeff", "{}\x00", "{}\x0c", "\x1f{}", "{}\u200b",
-               "({})", "{},", "{}#x", "{}\\", "{} {}", "{}\xa0{}", "{},\xa0{}", "{}" + " " * 12, " " * 12 + "{}"]
+               "({})", "{},", "{}#x", "{}\\", "{} {}", "{}\xa0{}", "{},\xa0{}", "{}" + " " * 12, " " * 12 + "{}", "{}\xa0, amount", "amount,\xa0{}", "{},\u2003kind"]
 PRODUCTIVE = ["'", '"abc', "u'a'", '"\\u"', "(", "[", "*", "%", "-", "1e999", "9" * 40, "0x", "1__0", "...", ",", "NaN", "Infinity", "äöü", "\x00", "\n", "class", "is valid", "DD.DD", "", "5...1"]
 
 
